@@ -227,6 +227,7 @@ def run(ctx):
     importlib.import_module("rules.c03").d9_param_staging(db, rep, "D9-PARAM-STAGING")
 
     d10_redefinition_gets_fresh_temp(db, rep)
+    d11_const_load_width(db, rep)
 
     if ctx.tier == "thorough":
         d5(ctx, rep)
@@ -372,3 +373,35 @@ def d10_redefinition_gets_fresh_temp(db, rep, rule="D10-REDEFINITION-FRESH"):
     if n < 1:
         raise AnalysisBroken("the re-definition branch of orc_compiler_rewrite_vars was not found")
     return n
+
+
+def d11_const_load_width(db, rep, rule="D11-CONST-LOAD-WIDTH"):
+    """D11: operand sizes of constants are not checked, so a constant declared with 4 bytes can feed a 64-bit opcode; emulation
+    and the JIT then use all 64 bits of its value.  The C back end must pick the literal it prints by the width of the LOAD
+    (the rule's own size), not by the declared size of the constant: with load size 8 and a 4-byte constant the 64-bit literal
+    template has to be the one reached, with load size 4 and an 8-byte constant the 32-bit one (exprval.reachable_under over
+    c_rule_loadpX)."""
+    from exprval import reachable_under
+    from facts import access_path
+    f = db.func("c_rule_loadpX", "orcprogram-c")
+    rep.saw(f)
+    CONST = db.enum("ORC_VAR_TYPE_CONST")
+    tmpl = []
+    for c in f.calls("orc_compiler_append_code"):
+        a = c.args()
+        lit = strip_casts(a[1]) if len(a) > 1 else None
+        t = lit.get("str", "") if lit is not None and lit.k == "StringLiteral" else ""
+        if "0x%08x" in t:
+            tmpl.append((c, "64" if "ORC_UINT64_C" in t or t.count("%08x") >= 2 else "32"))
+    if len(tmpl) < 2:
+        raise AnalysisBroken("c_rule_loadpX: literal templates for constants not found")
+    pn = [p_["name"] for p_ in f.params]
+    sz = [x.name for x in f.walk() if x.k == "VarDecl" and x.name == "size"]
+    for load, decl, want in ((8, 4, "64"), (4, 8, "32")):
+        env = {"size": load, "p->vars[].size": decl, "p->vars[].vartype": CONST, "p->target_flags": 0, "p->vars[].param_type": 0}
+        got = sorted({k for c, k in tmpl if reachable_under(f, env, lambda e, c=c: e.id == c.id)})
+        rep.check(got == [want], rule, where(f), "load%d:const%d" % (load, decl),
+                  "a %d-byte load of a constant declared with %d bytes prints the %s-bit literal" % (load, decl, want),
+                  "c_rule_loadpX prints the %s literal template for a %d-byte load of a constant declared with %d bytes (the choice follows the declared size, "
+                  "not the width of the load): `.const 4 c -1` used by `addq` becomes `var.i = 0xffffffff` in the Orc-free and backup code, which adds "
+                  "4294967295 where emulation and the JIT add -1" % ("/".join(got) or "no", load, decl), line=f.line)
